@@ -3,7 +3,12 @@
 import json, os, sys
 VERIF = os.path.dirname(os.path.dirname(os.path.abspath(__file__)))
 sys.path.insert(0, os.path.join(VERIF, "bin"))
+import subprocess
 from props import PROPS, NOT_APPLICABLE, HOOK_COMMITS
+try:
+    HOOK_COMMITS = subprocess.run(["git", "-C", "/repo", "log", "--format=%h %s", "--grep=^verif:"], capture_output=True, text=True).stdout.strip().split("\n")
+except Exception:
+    pass
 
 checks = []
 for pid in sorted(PROPS):
